@@ -53,6 +53,19 @@ theorem fallback_raises (T : Tables) (env : UdEnv) (h : SecHdr) (creator : Text)
   rw [objUpdate_head_error_data]
   exact ⟨_, rfl⟩
 
+/-- ★ (iv') the parser module cannot be loaded for a reason other than "no such module" (executing it raises):
+    error note + dump, exactly as for a failing call -/
+theorem fallback_import_raises (T : Tables) (env : UdEnv) (h : SecHdr) (creator : Text) (data : Bytes) (msg : Text)
+    (hnb : ¬ isBuiltin T creator h.comp) (hne : data ≠ []) (hr : env (udModuleName creator h.comp) = .importRaises msg) :
+    ∃ note, shown T env true h creator data =
+      .ok (.obj (headMembers T h creator ++ [kv "Error" (jstr note), kv "Data" (hexdumpJ data)])) := by
+  unfold shown parseUserData udToJson headMembers
+  unfold isBuiltin at hnb
+  simp only [if_neg hnb, Bool.not_true, Bool.false_eq_true, if_false, hr, errorWithData, if_pos hne, List.cons_append,
+    List.nil_append]
+  rw [objUpdate_head_error_data]
+  exact ⟨_, rfl⟩
+
 /-- ★ (v) the parser module returns nothing: error note + dump -/
 theorem fallback_none (T : Tables) (env : UdEnv) (h : SecHdr) (creator : Text) (data : Bytes)
     (hnb : ¬ isBuiltin T creator h.comp) (hne : data ≠ []) (hr : env (udModuleName creator h.comp) = .returnsNone) :
@@ -179,6 +192,9 @@ theorem never_dropped (T : Tables) (env : UdEnv) (allow : Bool) (h : SecHdr) (cr
       | echo => exact Or.inr (Or.inl ⟨rfl, hb, Or.inl rfl⟩)
       | raises msg =>
         obtain ⟨note, e⟩ := fallback_raises T env h creator data msg hb hne he
+        exact Or.inr (Or.inr ⟨[kv "Error" (jstr note)], by rw [e, List.append_assoc]; rfl⟩)
+      | importRaises msg =>
+        obtain ⟨note, e⟩ := fallback_import_raises T env h creator data msg hb hne he
         exact Or.inr (Or.inr ⟨[kv "Error" (jstr note)], by rw [e, List.append_assoc]; rfl⟩)
       | returnsNone =>
         obtain ⟨note, e⟩ := fallback_none T env h creator data hb hne he
